@@ -768,10 +768,12 @@ class SorteDeque(collections.deque):
 
     def resort(self, item):  # pragma: no cover
         if item in self:
-            # if item is already in self, see if it is still in sorted order.
+            # if item is already in self, see if it is still in sorted order relative to its neighbours.
             # if not, re-sort it by removing it and then inserting it into its sorted order
-            i = bisect.bisect_left(self, item)
-            if i == len(self) or self[i] is not item:
+            # (an item that merely ties with its neighbours stays where it is)
+            i = self.index(item)
+            in_order = (i == 0 or not (item < self[i - 1])) and (i == len(self) - 1 or not (self[i + 1] < item))
+            if not in_order:
                 self.remove(item)
                 self.insort(item)
 
